@@ -19,7 +19,7 @@ use crate::rng::{mix, Rng};
 use crate::watch;
 
 pub fn plan(tier: &str) -> u64 {
-    n_rounds_cases(tier) + n_destroy_cases(tier)
+    n_rounds_cases(tier) + n_destroy_cases(tier) + n_spin_cases(tier)
 }
 
 fn n_rounds_cases(tier: &str) -> u64 {
@@ -38,6 +38,128 @@ fn n_destroy_cases(tier: &str) -> u64 {
     }
 }
 
+fn n_spin_cases(tier: &str) -> u64 {
+    if tier == "quick" {
+        16
+    } else {
+        96
+    }
+}
+
+/// The window of destroy-vs-open that no gate can hold open lies *inside* one file system call:
+/// an open that has resolved the LOCK path just before destroy_database unlinks and unlocks it,
+/// and takes its lock just after. Opener threads spin on DB::open while the destroyer, stopped
+/// right before it removes LOCK, is let go. Whoever obtains an instance must be the only owner.
+fn case_destroy_spin(out: &mut CaseOut, seed: u64, idx: u64) {
+    let mut rng = Rng::new(mix(&[seed, idx], "c17-spin"));
+    director().reset(rng.next_u64());
+    let use_tmpfs = idx % 2 == 0;
+    let fsname = if use_tmpfs { "tmpfs" } else { "osfs" };
+    let memtable = 4096usize;
+    let trials = 40;
+    let mut instances_won = 0u64;
+    let mut ctx = json!({"family": "destroy-vs-spinning-opens", "filesystem": fsname});
+    for trial in 0..trials {
+        watch::tick();
+        let scratch = Scratch::new(200_000 + idx * 1000 + trial);
+        let tmpfs_holder;
+        let (inner, db_path): (Arc<dyn FileSystem>, String) = if use_tmpfs {
+            tmpfs_holder = Arc::new(TmpFileSystem::new(Some(&scratch.dir)));
+            (tmpfs_holder.clone() as Arc<dyn FileSystem>, "db".to_string())
+        } else {
+            (Arc::new(OsFileSystem::new()), scratch.dir.join("db").to_string_lossy().to_string())
+        };
+        let gate_fs = Arc::new(GateFs {
+            inner: Arc::clone(&inner),
+            stop_desc: Some("remove_file:LOCK"),
+            stop_at: u64::MAX,
+            calls: AtomicU64::new(0),
+            state: parking_lot::Mutex::new((false, false, String::new())),
+            cv: parking_lot::Condvar::new(),
+            trace: parking_lot::Mutex::new(vec![]),
+        });
+        let fs: Arc<dyn FileSystem> = gate_fs.clone();
+        match DB::open(options(&fs, &db_path, memtable)) {
+            Ok(db) => {
+                let _ = db.put(WriteOptions::default(), b"k".to_vec(), b"v".to_vec());
+                drop(db);
+            }
+            Err(e) => {
+                out.violate("C17/owner-open-failed-although-nobody-holds-the-database", json!({"ctx": ctx, "error": e.to_string()}));
+                return;
+            }
+        }
+        let destroyer = {
+            let (fs, db_path) = (Arc::clone(&fs), db_path.clone());
+            std::thread::Builder::new().name("c17-destroyer".into()).spawn(move || {
+                set_role(DESTROYER);
+                let _g = watch::enter("destroy_database(gated)");
+                DB::destroy_database(options(&fs, &db_path, memtable)).is_ok()
+            }).unwrap()
+        };
+        if gate_fs.wait_arrived(Duration::from_secs(10)).is_none() {
+            gate_fs.release();
+            let _ = destroyer.join();
+            out.inconclusive("destroy-spin: destroy_database never reached the removal of LOCK");
+            return;
+        }
+        let stop = Arc::new(AtomicBool::new(false));
+        let won: Arc<parking_lot::Mutex<Vec<DB>>> = Arc::new(parking_lot::Mutex::new(vec![]));
+        let mut openers = vec![];
+        for o in 0..3u32 {
+            let (fs, db_path, stop, won) = (Arc::clone(&fs), db_path.clone(), Arc::clone(&stop), Arc::clone(&won));
+            openers.push(std::thread::Builder::new().name(format!("c17-spinner-{o}")).spawn(move || {
+                set_role(40 + o);
+                let _g = watch::enter("open(spinning)");
+                while !stop.load(Ordering::Relaxed) {
+                    if let Ok(db) = DB::open(options(&fs, &db_path, memtable)) {
+                        won.lock().push(db);
+                        break;
+                    }
+                }
+            }).unwrap());
+        }
+        std::thread::sleep(Duration::from_micros(rng.range(200, 3000)));
+        gate_fs.release();
+        let destroyed = destroyer.join().unwrap_or(false);
+        std::thread::sleep(Duration::from_millis(5));
+        stop.store(true, Ordering::Relaxed);
+        for o in openers {
+            let _ = o.join();
+        }
+        let mut held = std::mem::take(&mut *won.lock());
+        ctx["trial"] = json!(trial);
+        ctx["destroy_returned_ok"] = json!(destroyed);
+        ctx["spinning_opens_that_succeeded"] = json!(held.len());
+        out.add("destroy_spin_trials", 1);
+        if held.len() > 1 {
+            out.violate("C17/several-racing-opens-succeeded/while-destroy-ran", json!({"ctx": ctx, "files": listing(&scratch.dir)}));
+        }
+        if let Some(db) = held.first() {
+            instances_won += 1;
+            let _g = watch::enter("open(second-while-held)");
+            if let Ok(second) = DB::open(options(&fs, &db_path, memtable)) {
+                out.violate("C17/second-open-succeeded-while-open/open-raced-the-end-of-destroy", json!({"ctx": ctx, "files": listing(&scratch.dir)}));
+                drop(second);
+            }
+            if db.put(WriteOptions::default(), b"after".to_vec(), b"race".to_vec()).is_err() {
+                out.violate("C17/owner-write-failed-after-destroy-ran", json!({"ctx": ctx}));
+            }
+        }
+        held.clear();
+        let _ = DB::destroy_database(options(&inner, &db_path, memtable));
+        if out.is_violated() {
+            break;
+        }
+    }
+    out.add("instances_obtained_while_destroy_finished", instances_won);
+    if instances_won > 0 {
+        out.nontrivial(format!("destroy-spin/{fsname}/instances-won"));
+    }
+    out.nontrivial(format!("destroy-spin/{fsname}/trials"));
+    out.sample = Some(ctx);
+}
+
 /// destroy_database makes about ten file system calls on a small closed database; the gate is put
 /// before each of them in turn
 const DESTROY_POSITIONS: u64 = 14;
@@ -47,6 +169,8 @@ const DESTROYER: u32 = 77;
 /// stopped before its `stop_at`-th call until released.
 struct GateFs {
     inner: Arc<dyn FileSystem>,
+    /// stop before the call with this description instead of before the `stop_at`-th call
+    stop_desc: Option<&'static str>,
     stop_at: u64,
     calls: AtomicU64,
     state: parking_lot::Mutex<(bool, bool, String)>,
@@ -64,7 +188,11 @@ impl GateFs {
         let desc = format!("{what}:{class}");
         self.trace.lock().push(desc.clone());
         let n = self.calls.fetch_add(1, Ordering::SeqCst);
-        if n != self.stop_at {
+        let here = match self.stop_desc {
+            Some(d) => d == desc && !self.state.lock().0,
+            None => n == self.stop_at,
+        };
+        if !here {
             return;
         }
         let mut st = self.state.lock();
@@ -168,6 +296,7 @@ fn case_destroy_race(out: &mut CaseOut, seed: u64, idx: u64) {
     };
     let gate_fs = Arc::new(GateFs {
         inner: Arc::clone(&inner),
+        stop_desc: None,
         stop_at: position,
         calls: AtomicU64::new(0),
         state: parking_lot::Mutex::new((false, false, String::new())),
@@ -369,6 +498,10 @@ fn verify_contents(out: &mut CaseOut, db: &DB, model: &BTreeMap<Vec<u8>, Vec<u8>
 
 pub fn run_case(tier: &str, seed: u64, idx: u64) -> CaseOut {
     let mut out = CaseOut::new();
+    if idx >= n_rounds_cases(tier) + n_destroy_cases(tier) {
+        case_destroy_spin(&mut out, seed, idx - n_rounds_cases(tier) - n_destroy_cases(tier));
+        return out;
+    }
     if idx >= n_rounds_cases(tier) {
         case_destroy_race(&mut out, seed, idx - n_rounds_cases(tier));
         return out;
